@@ -133,7 +133,7 @@ PROPS = {
                 "receiver/argument indices drawn independently (aliasing). After every step every variable is compared with the model "
                 "(Encode, IsIdentity, IsZero, all Equal pairs, LessOrEqual pairs, curve membership). Non-trivial = history with >= 10 "
                 "steps, >= 1 aliased call and >= 1 operation producing Z != 1. Distinct by hash of the whole history.",
-        "units": [unit("props", "^TestC10", tier(12000, 8, 900), tier(480000, 16, 5400))],
+        "units": [unit("props", "^TestC10", tier(12000, 8, 900), tier(480000, 16, 5400), overlay="access")],
         "checks_expected": ["C10/history"],
     },
     "C15": {
@@ -173,7 +173,7 @@ PROPS = {
                 "case for each function. Each program is built with plain `go build` against the tree under test and executed; oracle: "
                 "exit status 0 and printed hex equals the model value. Non-trivial = the other imports do not link crypto/sha256 "
                 "(decided with `go list -deps`). Distinct by case hash.",
-        "units": [unit("prog", "^TestC17", tier(16, 8, 900), tier(160, 16, 5400))],
+        "units": [unit("prog", "^TestC17", tier(16, 8, 900), tier(160, 16, 5400), env={"VERIF_SHRINKTIME": "2s"})],
         "checks_expected": ["C17/programs"],
         "assumptions": ["'programs' is narrowed to import sets of standard-library packages under one toolchain/GOOS"],
     },
